@@ -113,6 +113,10 @@ def nested_cases(rng, n):
             top = IR.prog("top", [IR.func("S", ["x"], ["s"]), IR.graph_node(inner, inputs=["x"], outputs=["p", "answer", "q"]), IR.func("T", ["q", "s"], ["t"])])
             expect = "inner/ask"
         out.append((top, [["x", "in.x"]], expect))
+    # the wrapping node has a name of its OWN (as_node(name="review")): the pause is addressed through the node, not the graph
+    inner = IR.prog("inner", [IR.func("P", ["x"], ["p"]), IR.interrupt("ask", ["p"], ["answer"], pause_at=[1]), IR.func("Q", ["answer"], ["q"])], max_iter=1000)
+    top = IR.prog("top", [IR.func("S", ["x"], ["s"]), IR.graph_node(inner, name="review", inputs=["x"], outputs=["p", "answer", "q"]), IR.func("T", ["q", "s"], ["t"])])
+    out.append((top, [["x", "in.x"]], "review/ask"))
     # a multi-output interrupt inside a graph node whose NAME contains the first output's name
     inner = IR.prog("answers", [IR.func("P", ["x"], ["p"]), IR.interrupt("ask", ["p"], ["answer", "score"], pause_at=[1]),
                                  IR.func("Q", ["answer", "score"], ["q"])], max_iter=1000)
